@@ -100,7 +100,14 @@ func MapTableSchemaStoreFromConfig(config []byte, useMySQL bool) (*MapTableSchem
 	var mask SettingMask
 	mapSchemas := make(map[string]*tableSchema, len(storeConfig.Schemas))
 	for _, schema := range storeConfig.Schemas {
+		// an empty list item ("- " without a value) is decoded to a nil pointer
+		if schema == nil {
+			return nil, ErrInvalidEncryptorConfig
+		}
 		for _, setting := range schema.EncryptionColumnSettings {
+			if setting == nil {
+				return nil, ErrInvalidEncryptorConfig
+			}
 			setting.applyDefaults(*storeConfig.Defaults)
 			if err := setting.Init(useMySQL); err != nil {
 				return nil, err
